@@ -1,6 +1,8 @@
 import SynKitProofs.Props.C09
 #print axioms SynKit.RxnNorm.canonRxnWith_equiv
 #print axioms SynKit.RxnNorm.canonRxn_equiv
+#print axioms SynKit.RxnNorm.canonRxnWith_unpaired_no_collision
+#print axioms SynKit.RxnNorm.canonRxnWith_unpaired_equiv
 #print axioms SynKit.RxnNorm.canonRxn_numbering_indep
 #print axioms SynKit.RxnNorm.canonRxn_fix
 #print axioms SynKit.RxnNorm.canonOrder_atom_order_indep
